@@ -142,6 +142,7 @@ Section Fields.
       + cbn [out_state]. ok.
       + cbn [out_state]. ok.
       + cbn [out_state]. ok.
+      + apply ok_refl.
     - apply ok_refl.
     - destruct (_ || _); apply ok_refl.
     - destruct (nth_error (n_children (nd p n)) i) as [c|]; [|cbn [out_state]; ok].
@@ -184,6 +185,7 @@ Section Fields.
       eapply ok_trans; [|apply ok_register]. eapply ok_trans; [|now apply ok_reset_tree].
       eapply ok_trans; [|apply ok_unregister]. eapply ok_trans; [apply ok_mark_completed|].
       apply ok_set_ns. apply H_cond_keep.
+    - (* FInjAfter *) cbn [out_state]. ok.
   Qed.
 
   (* one tick *)
